@@ -712,3 +712,107 @@ def cache_replay(env, ctx, m, short, choice, st, si, k_in, k_out):
     item["native"] = native
     item["reproduced"] = rep
     return item
+
+
+# ----------------------------------------------------------------------------- C01: parse direction
+def q_parse(env, k_in, k_out, name=None):
+    """Transaction::from_bytes_impl on the reference serialisation of a symbolic transaction returns exactly that transaction
+    (version, outpoints, script bytes, sequences, values, locktime), for every compact-size class of every script length"""
+    from .models_parse import PMODELS, Pieces, varint_pieces
+    qr = QResult(name or f"parse_k{k_in}x{k_out}")
+    P = env.P
+    entry = env.fn("transaction::Transaction::from_bytes_impl")
+    ex = Exec(P, PMODELS + MODELS, logic="QF_BV", timeout_ms=20000, max_paths=20000)
+
+    def setup(ex):
+        ctx = Ctx()
+        tx = SymTx(ex, ctx, k_in, k_out)
+        ctx.tx = tx
+        u = lambda ts: [("u", t) for t in ts]
+        p = u(le_bytes(tx.version, 4)) + varint_pieces(z3.BitVecVal(k_in, 64))
+        for i in tx.ins:
+            p += u(list(reversed(i["prev_tx_id"]))) + u(le_bytes(i["vout"], 4)) + varint_pieces(i["script_len"]) + [("a", i["script"], i["script_len"])] + u(le_bytes(i["sequence"], 4))
+        p += varint_pieces(z3.BitVecVal(k_out, 64))
+        for o in tx.outs:
+            p += u(le_bytes(o["value"], 8)) + varint_pieces(o["script_len"]) + [("a", o["script"], o["script_len"])]
+        p += u(le_bytes(tx.locktime, 4))
+        return entry, [Ptr([Pieces(p)], 0)], ctx
+    try:
+        results = ex.explore(setup)
+    except Unsupported as e:
+        qr.undecided.append(f"from_bytes_impl: {e}")
+        return qr
+    qr.cases += 1
+    for r in results:
+        qr.paths += 1
+        if len(qr.violations) >= MAX_VIOLATIONS:
+            break
+        tx = r.ctx.tx
+        bad_kind, pairs, structural = None, [], True
+        if r.kind == "panic":
+            bad_kind = f"panics: {r.msg}"
+        elif r.ret.variant != "Ok":
+            bad_kind = "rejects a well-formed serialisation"
+        else:
+            try:
+                view = TxView(ex, P, r.ret.f[0])
+            except Unsupported as e:
+                qr.undecided.append(f"parse: {e}")
+                continue
+            if len(view.ins) != k_in or len(view.outs) != k_out:
+                bad_kind = f"parsed {len(view.ins)} inputs / {len(view.outs)} outputs instead of {k_in} / {k_out}"
+            else:
+                pairs.append((view.version, tx.version))
+                pairs.append((view.locktime, tx.locktime))
+                for gi, wi in zip(view.ins, tx.ins):
+                    pairs += list(zip(gi["prev_tx_id"], wi["prev_tx_id"])) + [(gi["vout"], wi["vout"]), (gi["sequence"], wi["sequence"])]
+                    if gi["script"].get_id() != wi["script"].get_id():
+                        structural = False
+                for go, wo in zip(view.outs, tx.outs):
+                    pairs.append((go["value"], wo["value"]))
+                    if go["script"].get_id() != wo["script"].get_id():
+                        structural = False
+                if any(s.variant != "None" for s in view.slots):
+                    bad_kind = "freshly parsed transaction has a non-empty hash cache"
+        s = z3.SolverFor("QF_BV")
+        s.set("timeout", 60000)
+        for c in r.pc:
+            s.add(c)
+        for L in all_len_vars(r.ctx):
+            s.add(z3.ULE(L, z3.BitVecVal(300, 64)))
+        if bad_kind is None:
+            if structural:
+                neq = [a != b for a, b in pairs if a.get_id() != b.get_id()]
+                if not neq:
+                    continue
+                # full domain first
+                s2 = z3.SolverFor("QF_BV")
+                for c in r.pc:
+                    s2.add(c)
+                s2.add(z3.Or(*neq))
+                qr.queries += 1
+                rr = s2.check()
+                if rr == z3.unsat:
+                    continue
+                if rr == z3.unknown:
+                    qr.undecided.append("parse: solver unknown")
+                    continue
+                s.add(z3.Or(*neq))
+                bad_kind = "a parsed field differs from the serialised one"
+            else:
+                bad_kind = "a parsed script is not the serialised script bytes"
+        qr.queries += 1
+        if s.check() != z3.sat:
+            qr.undecided.append(f"parse: '{bad_kind}' only for scripts above 300 bytes (not replayed)")
+            continue
+        b = Binder(s.model())
+        txj = b.tx(tx)
+        req = {"tx": txj, "ops": [{"op": "parse_fields"}]}
+        nat = {p_: C.Native.run(req, p_)[0] for p_ in ("debug", "release")}
+        item = {"message": f"parse direction k_in={k_in} k_out={k_out}: {bad_kind}", "request": req, "op_index": 0, "expected": txj, "native": nat}
+        if any(v.get("ok") != txj for v in nat.values()):
+            qr.violations.append(item)
+        else:
+            qr.undecided.append(f"parse: '{bad_kind}' not reproduced natively")
+    finish(qr, ex)
+    return qr
